@@ -22,6 +22,11 @@ from harness import c07_fns as FN
 from harness.common import cbool, clist, cn, cq
 
 BIG = 2**40
+# the two switchable facts of the tree under test (set by harness/c07.py from the EXTRACTED facts):
+# are assignment-defined parameters emitted (so that they may also be requested as free parameters),
+# does a variable without a reaction get an explicit zero
+IA_FROZEN = False
+UT_ZERO = False
 LANGS = ("py", "ts", "rs", "jl")
 COQ_LANG = {"py": "Py", "ts": "Ts", "rs": "Rs", "jl": "Jl"}
 
@@ -91,10 +96,18 @@ def gen_desc(rng, *, profile: str | None = None) -> dict:
             fid = 2
         return fid, args
 
+    par_only_coef_args: list[int] = []
+
     def pick_coef() -> tuple:
         if rng.random() < 0.7:
             return ("stat", rng.choice(_CVALS))
         fid, args = pick_fn(allow_ia=False)
+        if FN.translates(fid) and args and rng.random() < 0.35:
+            # every argument a plain parameter: the model's cache holds such a coefficient as a
+            # NUMBER (evaluated at the stored values); the generator must emit the EXPRESSION, or a
+            # free parameter among the arguments is ignored
+            args = [rng.choice(plain) for _ in args]
+            par_only_coef_args.extend(args)
         return ("dyn", fid, args)
 
     n_comp = rng.randint(1, 7)
@@ -130,7 +143,15 @@ def gen_desc(rng, *, profile: str | None = None) -> dict:
     # assignment when the parameter is updated; the recorded value in `par` would be stale)
     ia_reads = {a for _n, _v, ia in d["par"] if ia is not None for a in ia[1]}
     cand = [p for p in plain if p not in ia_reads]
-    if r < 0.4 and cand:
+    live = [p for p in dict.fromkeys(par_only_coef_args) if p in cand and any(
+        cf[0] == "dyn" and p in cf[2] for _n, _f, _a, st in d["rxn"] for _c, cf in st)]
+    if live and r < 0.7:
+        # a free parameter that reaches the right-hand side only/also through a computed coefficient
+        first = rng.choice(live)
+        rest = [p for p in cand if p != first]
+        d["free"] = [first] + (rng.sample(rest, 1) if rest and rng.random() < 0.4 else [])
+        rng.shuffle(d["free"])
+    elif r < 0.4 and cand:
         d["free"] = rng.sample(cand, rng.randint(1, min(2, len(cand))))
     elif r < 0.43 and not clean:
         d["free"] = [rng.choice(ia_names) if ia_names else 999]
@@ -145,7 +166,132 @@ def gen_points(rng, desc: dict, k: int = 3) -> list[tuple[Fraction, list[Fractio
         y = [Fraction(rng.randint(-3, 3)) + (Fraction(1, 2) if half and rng.random() < 0.5 else 0) for _ in desc["var"]]
         fv = [Fraction(rng.randint(-3, 3)) for _ in desc["free"]]
         pts.append((t, y, fv))
+    # every free parameter is called at least once with a value that differs from the stored one
+    stored = {n: v for n, v, _ia in desc["par"]}
+    for j, f in enumerate(desc["free"]):
+        if f in stored and pts and all(p[2][j] == stored[f] for p in pts):
+            pts[-1][2][j] = stored[f] + 1
     return pts
+
+
+def free_reaches_coefficient(desc: dict) -> bool:
+    """a requested free parameter is an argument of a computed coefficient all of whose arguments
+    are parameters (the cache stores such a coefficient as a number)"""
+    pars = {n for n, _v, _ia in desc["par"]}
+    return any(
+        cf[0] == "dyn" and cf[2] and set(cf[2]) <= pars and set(cf[2]) & set(desc["free"])
+        for _n, _f, _a, st in desc["rxn"] for _c, cf in st
+    )
+
+
+# ---------------------------------------------------------------------------------------
+# function-table sweep: every translatable function on BOTH sides of every condition
+# ---------------------------------------------------------------------------------------
+
+_GRID = [Fraction(v) for v in (-3, -2, -1, 0, 1, 2, 3)] + [Fraction(-1, 2), Fraction(1, 2), Fraction(3, 2)]
+
+
+class _RecTests(__import__("ast").NodeTransformer):
+    """wrap the test of every `if` / `elif` / conditional expression in __rec(<index>, test)"""
+
+    def __init__(self) -> None:
+        self.n = 0
+
+    def _wrap(self, test):
+        import ast
+
+        k, self.n = self.n, self.n + 1
+        return ast.Call(func=ast.Name(id="__rec", ctx=ast.Load()), args=[ast.Constant(k), test], keywords=[])
+
+    def visit_If(self, node):
+        self.generic_visit(node)
+        node.test = self._wrap(node.test)
+        return node
+
+    visit_IfExp = visit_If
+
+
+def probes(fid: int, rng=None, cap: int = 8) -> tuple[list[tuple], int, int]:
+    """Argument tuples for function `fid` that take every condition of its source to True AND to
+    False (and every distinct path through the conditions met on the grid, up to `cap` points);
+    returns (points, condition sides covered, condition sides in the source)."""
+    import ast
+    import inspect
+    import itertools
+    import textwrap
+
+    fn = FN.FNS[fid]
+    tree = ast.parse(textwrap.dedent(inspect.getsource(fn)))
+    tr = _RecTests()
+    tree = ast.fix_missing_locations(tr.visit(tree))
+    seen: list[tuple] = []
+
+    def rec(k, v):
+        seen.append((k, bool(v)))
+        return v
+
+    ns: dict[str, Any] = {"__rec": rec}
+    exec(compile(tree, f"<probe {fn.__name__}>", "exec"), ns)  # noqa: S102
+    g = ns[fn.__name__]
+    grid = list(itertools.product(_GRID, repeat=FN.ARITY[fid]))
+    if rng is not None:
+        rng.shuffle(grid)
+    chosen: list[tuple] = []
+    atoms: set[tuple] = set()
+    paths: set[tuple] = set()
+    for pass_ in (0, 1):  # first the sides of the conditions, then further distinct paths
+        for args in grid:
+            if len(chosen) >= cap:
+                break
+            seen.clear()
+            g(*args)
+            sig = tuple(seen)
+            new = (set(sig) - atoms) if pass_ == 0 else ({sig} - paths)
+            if new and args not in chosen:
+                chosen.append(args)
+                atoms |= set(sig)
+                paths.add(sig)
+    for args in grid:  # at least three points, also for straight-line functions
+        if len(chosen) >= min(3, len(grid)):
+            break
+        if args not in chosen:
+            chosen.append(args)
+    return chosen, len(atoms), 2 * tr.n
+
+
+def sweep_cases(rng=None) -> tuple[list[tuple[dict, list[tuple]]], dict]:
+    """For every translatable function: (A) a model whose rate IS the function of the variables,
+    evaluated at states on both sides of every condition; (B) a model in which the function is a
+    computed stoichiometric coefficient over parameters that are all requested as free parameters
+    and called at the probe values (the first probe is the stored value, the others differ)."""
+    F = Fraction
+    out: list[tuple[dict, list[tuple]]] = []
+    sides = total = 0
+    for fid in sorted(FN.TRANSLATABLE):
+        k = FN.ARITY[fid]
+        pts, got, want = probes(fid, rng)
+        sides += got
+        total += want
+        if got != want:
+            raise AssertionError(f"probes of {FN.FNS[fid].__name__} reach {got} of {want} condition sides")
+        nv = max(k, 1)
+        vs = [12 + i for i in range(nv)]
+        rx = [(20 + i, 0, [v], [(v, ("stat", F(-1)))]) for i, v in enumerate(vs)]
+        a = {"par": [(11, F(2), None)], "var": [(v, F(1)) for v in vs], "der": [],
+             "rxn": [(30, fid, vs[:k], [(vs[0], ("stat", F(1)))]), *rx], "free": []}
+        out.append((a, [(F(0), list(p) if k else [F(1)], []) for p in (pts if k else pts[:1])]))
+        # the same function as a derived quantity read by a rate (the other emission loop branch)
+        d = {"par": [(11, F(2), None)], "var": [(v, F(1)) for v in vs], "der": [(30, fid, vs[:k])],
+             "rxn": [(31, 4, [30, 11], [(vs[0], ("stat", F(1)))]), *rx], "free": []}
+        out.append((d, [(F(0), list(p) if k else [F(1)], []) for p in (pts if k else pts[:1])]))
+        if k:
+            ps = [40 + i for i in range(k)]
+            free = list(reversed(ps))
+            b = {"par": [(p, pts[0][i], None) for i, p in enumerate(ps)], "var": [(12, F(1)), (13, F(2))], "der": [],
+                 "rxn": [(30, 0, [12], [(12, ("dyn", fid, ps)), (13, ("stat", F(1)))])], "free": free}
+            out.append((b, [(F(1), [F(2), F(-1)], list(reversed(p))) for p in pts]))
+    return out, {"functions": len(FN.TRANSLATABLE), "condition_sides_covered": sides, "condition_sides_in_source": total,
+                 "cases": len(out)}
 
 
 def uses_untranslatable(desc: dict) -> bool:
@@ -157,8 +303,11 @@ def uses_untranslatable(desc: dict) -> bool:
 def shape_flags(desc: dict) -> dict[str, Any]:
     covered = {c for _n, _f, _a, st in desc["rxn"] for c, _ in st}
     vars_ = [n for n, _ in desc["var"]]
-    plain = {n for n, _v, ia in desc["par"] if ia is None}
+    plain = {n for n, _v, ia in desc["par"] if ia is None or IA_FROZEN}
+    ia_reads = {a for _n, _v, ia in desc["par"] if ia is not None for a in ia[1]}
     return {
+        "no_equation": not any(st for _n, _f, _a, st in desc["rxn"]),
+        "free_feeds_ia": bool(ia_reads & set(desc["free"])),
         "n_var": len(vars_),
         "n_ret": len([v for v in vars_ if v in covered]),
         "uncovered": [v for v in vars_ if v not in covered],
